@@ -378,7 +378,7 @@ def emit(n, plan, need, doc, lstack, counts, force=False):
         return
     # loop
     if transparent(n):
-        for c in n.children:
+        for c in ordered(n.children, plan):
             emit(c, plan, need, doc, lstack, counts)
         return
     if n.usage == 'N':
@@ -389,9 +389,30 @@ def emit(n, plan, need, doc, lstack, counts, force=False):
     for _ in range(k):
         counts[n.path] = counts.get(n.path, 0) + 1
         lstack.append((n.path, counts[n.path]))
-        for j, c in enumerate(n.children):
-            emit(c, plan, need, doc, lstack, counts, force=(j == 0 and c.kind == 'seg'))
+        for j, c in enumerate(ordered(n.children, plan)):
+            emit(c, plan, need, doc, lstack, counts, force=(c is n.children[0] and c.kind == 'seg'))
         lstack.pop()
+
+
+def ordered(children, plan):
+    """children in map order, or -- plan['swap_samepos'] -- with every run of same-position siblings reversed
+    (siblings at one position may legally come in any order; the first child of a loop keeps its place)"""
+    if not plan.get('swap_samepos'):
+        return children
+    out = []
+    i = 0
+    while i < len(children):
+        j = i
+        while j + 1 < len(children) and children[j + 1].pos == children[i].pos:
+            j += 1
+        grp = list(children[i:j + 1])
+        if i == 0:
+            grp = [grp[0]] + list(reversed(grp[1:]))
+        else:
+            grp.reverse()
+        out.extend(grp)
+        i = j + 1
+    return out
 
 
 def find(root, path):
@@ -429,7 +450,7 @@ def build(entry, plan):
                 n2 = need if p2 is plan else set()
                 counts[st_loop.path] = counts.get(st_loop.path, 0) + 1
                 L3 = L2 + [(st_loop.path, counts[st_loop.path])]
-                for c in st_loop.children:
+                for c in ordered(st_loop.children, p2):
                     emit(c, p2, n2, doc, L3, counts)
             doc.segs.append(mkseg(ge_seg, plan)); doc.nodes.append(ge_seg); doc.lpaths.append(tuple(L2))
         doc.segs.append(mkseg(iea_seg, plan)); doc.nodes.append(iea_seg); doc.lpaths.append(tuple(L1))
@@ -661,3 +682,10 @@ def Doc_flat(s):
     while len(parts) > 1 and parts[-1] == '':
         parts.pop()
     return parts
+
+
+def plans_swapped(entry):
+    """documents whose same-position sibling runs are reversed: every segment is still located in the map
+    (structurally valid for C08/C09), but they are not 'walked in order', so C02 does not claim acceptance"""
+    yield ('all-swapped', {'all': True, 'swap_samepos': True})
+    yield ('all-filled-swapped', {'all': True, 'fill_all': True, 'swap_samepos': True})
